@@ -103,7 +103,7 @@ def random_def(rng):
     values = random_values(rng, w)
     cfgs = None
     if values and rng.random() < 0.12:
-        cfgs = [rng.choice([None, None, 'feature = "x"', 'feature = "y"']) for _ in values]
+        cfgs = [rng.choice([None, None, 'xfeat', 'yfeat']) for _ in values]
     d = mk_def(w, base, values, rng.random() < 0.45, cfgs, size=rng.choice([None, None, 16, 32]) if w <= 16 else None)
     if d["objects"][0]["size_bits"] < w:
         d["objects"][0]["size_bits"] = 8 * ((w + 7) // 8)
@@ -146,7 +146,14 @@ def impl_string(r):
 
 
 def d12_open():
-    return [f for f in vlib.load_known_findings("C15") if f.get("id") == "D12"]
+    """the open D12 entries of KNOWN_FINDINGS.jsonl (VERIF_D12_STATUS=fixed|open overrides the file, for testing)"""
+    ov = os.environ.get("VERIF_D12_STATUS")
+    if ov == "fixed":
+        return []
+    found = [f for f in vlib.load_known_findings("C15") if f.get("id") == "D12"]
+    if ov == "open" and not found:
+        return [{"id": "D12", "property": "C15", "status": "open"}]
+    return found
 
 
 def judge(impl, mstr, is_open):
